@@ -130,7 +130,7 @@ def rule_digit_tables(ctx, rule="C14-digits"):
     total_vals = 0
     for i in impls:
         ty = i["self"]
-        key = i["items"].get("digit_count")
+        key = i["items"].get("digit_count") or (list(i["items"].values())[0] if len(i["items"]) == 1 else None)      # (the method may have been renamed with its trait)
         body = F.bodies.get(key)
         rng = int_range(ty, F.ptr_bits)
         if body is None or rng is None:
